@@ -439,7 +439,177 @@ def check_reference(ctx, R="C10.reference"):
     ctx.floor(R, n, 40, "reference headings")
 
 
+# Frozen: unguarded `[-1]` / `[0]` on a possibly-empty component that the grammar context makes non-empty.
+INDEX_OK = {
+    ("invalid_arguments", "args ',' args", "a[1]"): "the first `args` can only be followed by `,` `args` when a keyword argument stopped its positional part, so its keyword list is not empty",
+}
+
+
+def check_indexing(ctx, R="C10.index"):
+    ctx.rule(
+        R,
+        "error paths do not index past the end: (a) in grammar actions, `v[i][-1]` / `v[i][0]` on a component of a rule result that some "
+        "alternative of that rule can leave empty (e.g. the keyword list of `args`) is guarded by a test of that component (frozen "
+        "exceptions carry their reason); (b) in scenic/core/errors.py a subscript whose index depends on a parameter (a line number or "
+        "offset taken from the error) is guarded by a length / truth test or sits in a try that catches IndexError",
+    )
+    g = ctx.grammar
+    # (a) which components of tuple-valued rules may be empty
+    maybe_empty = {}
+    exclusive = {}
+    from pegen import grammar as gr
+
+    def _plus(alt, nonempty_rules=()):
+        out = set()
+        for it in alt.items:
+            if isinstance(it, gr.NamedItem) and it.name and (isinstance(it.item, (gr.Repeat1, gr.Gather)) or str(it.item) in nonempty_rules):
+                out.add(it.name)
+        return out
+
+    # rules whose result is always a non-empty list (every alternative is a `+` repetition or a concatenation with one)
+    nonempty_rules = set()
+    for rname, rule in g.rules.items():
+        alts = [a for a in g.alts if a.rule == rname and not a.nested]
+        if alts and all(
+            (a.action is None and len(a.alt.items) == 1 and isinstance(getattr(a.alt.items[0], "item", a.alt.items[0]), (gr.Repeat1, gr.Gather)))
+            or (a.action is not None and _nonempty(a.action, _plus(a.alt)))
+            for a in alts
+        ):
+            nonempty_rules.add(rname)
+    for rname, rule in g.rules.items():
+        alts = [a for a in g.alts if a.rule == rname and not a.nested]
+        if not alts or not all(a.action is not None and isinstance(a.action, ast.Tuple) for a in alts):
+            continue
+        width = {len(a.action.elts) for a in alts}
+        if len(width) != 1:
+            continue
+        comps = [False] * width.pop()
+        for a in alts:
+            plus_items = _plus(a.alt, nonempty_rules)
+            for i, e in enumerate(a.action.elts):
+                comps[i] = comps[i] or not _nonempty(e, plus_items)
+            # pairs of components of which at least one is non-empty in this alternative
+            pairs = set()
+            for i, ei in enumerate(a.action.elts):
+                for j, ej in enumerate(a.action.elts):
+                    if i != j and (_nonempty(ei, plus_items) or _nonempty(ej, plus_items) or _complementary(ei, ej, plus_items)):
+                        pairs.add((i, j))
+            exclusive[rname] = pairs if rname not in exclusive else (exclusive[rname] & pairs)
+        maybe_empty[rname] = comps
+    n = 0
+    for a in g.alts:
+        if a.action is None:
+            continue
+        from pegen import grammar as gr
+
+        bound = {it.name: str(it.item) for it in a.alt.items if isinstance(it, gr.NamedItem) and it.name and str(it.item) in maybe_empty}
+        if not bound:
+            continue
+        for node in ast.walk(a.action):
+            if not (isinstance(node, ast.Subscript) and isinstance(node.slice, (ast.Constant, ast.UnaryOp)) and isinstance(node.value, ast.Subscript) and isinstance(node.value.value, ast.Name) and node.value.value.id in bound):
+                continue
+            idx = node.value.slice
+            if not (isinstance(idx, ast.Constant) and isinstance(idx.value, int)):
+                continue
+            rname = bound[node.value.value.id]
+            if idx.value >= len(maybe_empty[rname]) or not maybe_empty[rname][idx.value]:
+                continue
+            n += 1
+            comp = unparse(node.value)
+            shape_txt = " ".join(str(i) for i in a.alt.items)
+            others = [f"{node.value.value.id}[{j}]" for (i_, j) in exclusive.get(rname, set()) if i_ == idx.value]
+            if _guarded_in_action(a.action, node, comp, others):
+                ctx.ok(R, GRAMFILE, f"{a.rule}: `{unparse(node)}` is guarded by a test of `{comp}`", qualname=a.rule)
+            elif (a.rule, shape_txt, comp) in INDEX_OK:
+                ctx.ok(R, GRAMFILE, f"{a.rule}: `{unparse(node)}` unguarded, frozen exception: {INDEX_OK[(a.rule, shape_txt, comp)]}", qualname=a.rule)
+            else:
+                ctx.finding(
+                    R,
+                    GRAMFILE,
+                    f"{a.rule}: unguarded {unparse(node)} in `{shape_txt}`",
+                    f"grammar rule {a.rule} (line ~{g.line_of_rule(a.rule)}), alternative `{shape_txt}`: the action evaluates `{unparse(node)}` although `{comp}` "
+                    f"(component {idx.value} of `{rname}`) is empty for some inputs: the error path raises IndexError instead of the syntax error",
+                    qualname=a.rule,
+                )
+    ctx.floor(R, n, 3, "indexed possibly-empty components in grammar actions")
+    # (b) errors.py
+    m = ctx.model.module("scenic.core.errors")
+    nb = 0
+    for q, fn in m.functions.items():
+        params = {x.arg for x in fn.args.args + fn.args.kwonlyargs}
+        for node in walk_local(fn):
+            if not (isinstance(node, ast.Subscript) and isinstance(node.ctx, ast.Load)):
+                continue
+            if isinstance(node.slice, ast.Slice) or not (lib.names_loaded(node.slice) & params):
+                continue
+            nb += 1
+            caught = False
+            for anc in ancestors(node):
+                if isinstance(anc, ast.Try) and any(x is node for b in anc.body for x in ast.walk(b)):
+                    for h in anc.handlers:
+                        ht = unparse(h.type) if h.type is not None else "BaseException"
+                        if any(k in ht for k in ("IndexError", "LookupError", "Exception", "BaseException")):
+                            caught = True
+            guarded = any(unparse(node.value) in unparse(t) for t, p in lib.guard_tests(node, fn)) or any(isinstance(anc, ast.IfExp) and unparse(node.value) in unparse(anc.test) for anc in ancestors(node))
+            if caught or guarded:
+                ctx.ok(R, node, f"errors.{q}: `{unparse(node)}` cannot raise out of the error report")
+            else:
+                ctx.finding(R, node, f"errors.{q}: unguarded {norm_text(node, 50)}", f"scenic.core.errors.{q}: `{unparse(node)}` indexes by a value taken from the error being reported without a length check or an IndexError handler: an error located at the end of a file makes the report itself fail with IndexError")
+    ctx.note(f"errors.py: {nb} parameter-indexed subscripts")
+
+
+def _nonempty(e, plus_items):
+    """the list expression e is certainly non-empty"""
+    if isinstance(e, ast.Name):
+        return e.id in plus_items
+    if isinstance(e, ast.BinOp) and isinstance(e.op, ast.Add):
+        return _nonempty(e.left, plus_items) or _nonempty(e.right, plus_items)
+    if isinstance(e, ast.List):
+        return bool(e.elts)
+    return False
+
+
+def _complementary(ei, ej, plus_items):
+    """[e for e in S if P(e)] and [e for e in S if not P(e)] over a non-empty S: not both empty"""
+    if not (isinstance(ei, ast.ListComp) and isinstance(ej, ast.ListComp)):
+        return False
+    gi, gj = ei.generators, ej.generators
+    if len(gi) != 1 or len(gj) != 1 or len(gi[0].ifs) != 1 or len(gj[0].ifs) != 1:
+        return False
+    if unparse(gi[0].iter) != unparse(gj[0].iter) or not _nonempty(gi[0].iter, plus_items):
+        return False
+    if unparse(ei.elt) != unparse(gi[0].target) or unparse(ej.elt) != unparse(gj[0].target):
+        return False
+    a, b = gi[0].ifs[0], gj[0].ifs[0]
+    neg = lambda t: t.operand if isinstance(t, ast.UnaryOp) and isinstance(t.op, ast.Not) else None
+    return (neg(a) is not None and unparse(neg(a)) == unparse(b)) or (neg(b) is not None and unparse(neg(b)) == unparse(a))
+
+
+def _guarded_in_action(action, node, comp, others=()):
+    parents = {}
+    for p in ast.walk(action):
+        for c in ast.iter_child_nodes(p):
+            parents[id(c)] = p
+    cur = node
+    while id(cur) in parents:
+        par = parents[id(cur)]
+        if isinstance(par, ast.IfExp) and comp in unparse(par.test) and (cur is par.body or cur is par.orelse):
+            # body is taken when the test is true: `x[-1] if x else ...` or `... if len(x) > 1 else None`
+            if cur is par.body or (isinstance(par.test, ast.UnaryOp) and isinstance(par.test.op, ast.Not)):
+                return True
+        if isinstance(par, ast.IfExp) and cur is par.orelse and unparse(par.test) in others:
+            # `.. if v[j] else v[i][-1]`: v[j] is empty here, and v[i], v[j] are never both empty
+            return True
+        if isinstance(par, ast.BoolOp) and isinstance(par.op, ast.And):
+            i = par.values.index(cur) if cur in par.values else -1
+            if i > 0 and any(comp in unparse(v) for v in par.values[:i]):
+                return True
+        cur = par
+    return False
+
+
 def check(ctx):
+    check_indexing(ctx)
     check_visitors(ctx)
     check_raises(ctx)
     check_tokeninfo(ctx)
